@@ -143,6 +143,17 @@ def _run_datasets(cfg, rec):
                 if c[0].startswith("labels:datasets") and "item" not in c[2]:
                     rec.candidates[i] = (c[0], c[1], dict(c[2], item=cfg))
         rec.want_sample() and rec.sample({"config": cfg["name"], "linear_problems": len(c02.ordered_calls(stubs))})
+    # the *reported* side of the same configurations: estimated clps / matrices / fitted data of every dataset under their labels
+    # (C03's obligations through create_result_data), in every dataset declaration order - the aligned label order of a linked
+    # group is the first dataset's, later datasets hold the shared labels in another order
+    from harness import c03_result_data as c03
+
+    n0 = len(rec.candidates)
+    c03.run_config(pcfg, rec)
+    for i in range(n0, len(rec.candidates)):
+        c = rec.candidates[i]
+        if "item" not in c[2]:
+            rec.candidates[i] = (c[0], c[1], dict(c[2], item=cfg))
 
 
 def _run_combine(cfg, rec):
@@ -349,7 +360,9 @@ def _replay_item(cfg):
                 return v, d
         return False, "ok"
     if cfg["kind"] == "datasets":
-        return c02.replay({"cfg": cfg["pipeline"], "env": {}})
+        from harness import c03_result_data as c03
+
+        return c03.replay({"cfg": cfg["pipeline"], "env": {}})  # objective (C02's oracle) and reported arrays (C03's)
     if cfg["kind"] == "osc_irf":
         return c07.replay({"cfg": cfg["c07"], "env": {}})
     with warnings.catch_warnings():
